@@ -126,6 +126,55 @@ func genC18(r *kit.Rand, tier kit.Tier) C18Case {
 
 	c.Steps = append(c.Steps, CtrlStep{Target: target, Cmd: int(memcontrolprotocol.CmdEnable), Wait: true})
 
+	// One run in ten: a write-back cache of a few lines under a storm of full-line
+	// writes over more lines than it holds (every miss evicts a dirty victim whose
+	// write-back travels to a slow lower memory while the write itself is already
+	// answered), with resets at arbitrary moments of that traffic.
+	if r.Chance(1, 10) {
+		c.Agent = "wb"
+
+		if len(c.Cfg.Caches) == 0 {
+			c.Cfg = GenConfig(r, tier, GenOpts{OnlyCaches: 1, NoRob: true, NoStub: true, MaxOps: 40})
+		}
+
+		c.Cfg.Rob = nil
+		FillLower(r, &c.Cfg.Lower, "stub", small)
+		cc := &c.Cfg.Caches[0]
+		cc.Kind, cc.Log2Block, cc.Sets, cc.Ways = "wb", 6, r.PickInt(1, 2), r.PickInt(1, 2)
+		c.Cfg.Lower.StubMinDelay = r.PickInt(5, 20, 60)
+		c.Cfg.Lower.StubMaxDelay = c.Cfg.Lower.StubMinDelay + r.PickInt(0, 20, 100)
+		c.Cfg.Reqs = c.Cfg.Reqs[:1]
+		lines := cc.Sets*cc.Ways + r.Range(1, 3)
+		base := uint64(r.Intn(8)) * 4096
+
+		var ops []Op
+
+		for i := 0; i < r.Range(6, 30); i++ {
+			a := base + uint64(r.Intn(lines))*64
+
+			switch r.Weighted(6, 1, 1) {
+			case 0:
+				ops = append(ops, Op{Write: true, Addr: a, Size: 64})
+			case 1:
+				ops = append(ops, Op{Write: true, Addr: a + uint64(r.Intn(15))*4, Size: 4})
+			default:
+				ops = append(ops, Op{Addr: a + uint64(r.Intn(15))*4, Size: 4})
+			}
+		}
+
+		c.Cfg.Reqs[0].Ops = ops
+		c.Cfg.Reqs[0].Stalls = nil
+		c.Steps = nil
+		t := uint64(0)
+
+		for i := 0; i < r.Range(1, 3); i++ {
+			t += uint64(r.Range(2, 120)) * 1000
+			c.Steps = append(c.Steps, CtrlStep{Target: "L1", Cmd: int(memcontrolprotocol.CmdReset), At: t, Wait: r.Chance(1, 2)})
+		}
+
+		c.Steps = append(c.Steps, CtrlStep{Target: "L1", Cmd: int(memcontrolprotocol.CmdEnable), Wait: true})
+	}
+
 	return c
 }
 
